@@ -44,6 +44,10 @@ func (st *yamlStyle) keyNode(k string) *yaml.Node {
 			return &yaml.Node{Kind: yaml.ScalarNode, Tag: "!!int", Value: []string{"0xc", "0o14", "+12", "1_2", "12"}[st.rng.Intn(5)]}
 		case "true":
 			return &yaml.Node{Kind: yaml.ScalarNode, Tag: "!!bool", Value: []string{"True", "TRUE", "true"}[st.rng.Intn(3)]}
+		case "8": // (a leading zero is the old octal notation, which yaml.v3 still reads)
+			return &yaml.Node{Kind: yaml.ScalarNode, Tag: "!!int", Value: []string{"010", "0o10", "0x8", "+8", "8", "0b1000"}[st.rng.Intn(6)]}
+		case "7":
+			return &yaml.Node{Kind: yaml.ScalarNode, Tag: "!!int", Value: []string{"007", "0o7", "7", "0b111", "07"}[st.rng.Intn(5)]}
 		}
 		if f, err := strconv.ParseFloat(k, 64); err == nil && strings.Contains(k, "e") && strconv.FormatFloat(f, 'e', -1, 64) == k {
 			// the key is the canonical string of a float: written as a plain float in some other spelling
